@@ -7,7 +7,7 @@ CODEC_TB = ["hash/crc32 is modelled by Rscp.Crc.crc32 (validated on every run by
 
 PROPS = {
     "C01": dict(
-        lean=["Rscp.Props.C01", "Rscp.Props.C01a", "Rscp.Tie.Reader", "Rscp.Tie.Writer", "Rscp.Tie.Validate"],
+        lean=["Rscp.Props.C01", "Rscp.Props.C01a", "Rscp.Props.C01b", "Rscp.Tie.Reader", "Rscp.Tie.Writer", "Rscp.Tie.Validate"],
         streams=[dict(name="rt", quick=400, thorough=6000, thorough_seeds=3)],
         trusted_base=CODEC_TB + ["block cipher: parameter with hypothesis D(E(b)) = b (Rijndael-256 itself is not modelled)",
                                  "time.Time ↔ (Unix(), Nanosecond()) conversion of the Go runtime"],
@@ -16,7 +16,8 @@ PROPS = {
     "C02": dict(
         lean=["Rscp.Props.C02", "Rscp.Props.C09", "Rscp.Tie.Reader", "Rscp.Tie.Client"],
         streams=[dict(name="any", quick=120, thorough=3000, thorough_seeds=3),
-                 dict(name="hist", quick=150, thorough=3000, thorough_seeds=2)],
+                 dict(name="hist", quick=150, thorough=3000, thorough_seeds=2),
+                 dict(name="stall", quick=1, thorough=1, thorough_seeds=1)],
         trusted_base=CODEC_TB,
         assumptions=["'promptly' is shown as: the model's recursion stays within fuel = input length + 2; wall-clock per case is bounded by a 20 s watchdog in the harness"],
     ),
@@ -45,13 +46,13 @@ PROPS = {
                       "the independent peer of the harness (own key padding, IV, chaining, frame parser) decides decryptability on real loopback TCP"],
     ),
     "C07": dict(
-        lean=["Rscp.Props.C07", "Rscp.Tie.Client", "Rscp.Tie.Reader"],
+        lean=["Rscp.Props.C07", "Rscp.Props.C07b", "Rscp.Tie.Client", "Rscp.Tie.Reader", "Rscp.Tie.Crypt"],
         streams=[dict(name="seg", quick=35, thorough=600, thorough_seeds=2)],
         trusted_base=CODEC_TB + ["conn.Read semantics: returns 1..len(buf) bytes of what was delivered (scripted net.Conn attached by the verif hook)",
                                  "CBC decryption commutes with block-aligned cutting (C06.cbc_chunking), so the loop is modelled on the plaintext stream"],
     ),
     "C08": dict(
-        lean=["Rscp.Props.C08", "Rscp.Tie.Client"],
+        lean=["Rscp.Props.C08", "Rscp.Props.C08b", "Rscp.Tie.Client", "Rscp.Tie.Reader"],
         streams=[dict(name="hist", quick=250, thorough=5000, thorough_seeds=3),
                  dict(name="tcp", quick=24, thorough=600, thorough_seeds=2)],
         trusted_base=["token-level abstraction of the byte stream: one well-formed reply frame = one token (justified by C03 chunking and C07)",
@@ -69,7 +70,7 @@ PROPS = {
         trusted_base=["Go type assertion on the UseChecksum interface value modelled as a three-way case (nil / bool / other type)"],
     ),
     "C14": dict(
-        lean=["Rscp.Props.C14", "Rscp.Tie.Vocab"],
+        lean=["Rscp.Props.C14", "Rscp.Props.C14b", "Rscp.Tie.Vocab", "Rscp.Tie.Reader", "Rscp.Tie.Writer", "Rscp.Tie.Validate"],
         streams=[dict(name="vocab", quick=300, thorough=20000, thorough_seeds=2)],
         trusted_base=["names are handled as Nat codes (base-256 number of the bytes behind a leading 1; injectivity proved: nameCode_injective); that the generated code tables are the codes of the generated string tables is checked by the driver on every run (op `codes`), not by the kernel (the kernel needs 30 ms per string comparison)",
                       "Rscp/Snapshot/Vocab.lean is the frozen vocabulary of the pinned commit"],
